@@ -109,6 +109,9 @@ static double dcb(int kind, double base, const Path64& path, size_t curr) {
   switch (kind) {
     case 1: return base;
     case 2: return base * (double)(1 + (curr % 3)) / 3.0;
+    case 4: return (curr % 2) ? base : 0.0;                    // no offset at every other vertex
+    case 5: { uint64_t h = hmix(13, (uint64_t)path[curr].x); h = hmix(h, (uint64_t)path[curr].y); return (h % 3 == 0) ? -base : base; }   // sign changes along the path
+    case 6: return base * 1e-13;                               // below the library's own floating-point tolerance
     default: {
       uint64_t h = hmix(11, (uint64_t)path[curr].x); h = hmix(h, (uint64_t)path[curr].y);
       return base * (0.25 + (double)(h % 1000) / 1333.0);
@@ -531,7 +534,7 @@ static void h_f_arc(Ctx& c, const Op& op, int idx, OpResult& r) {
 }
 static void h_f_setdcb(Ctx& c, const Op& op, int idx, OpResult& r) {
   Obj* o = c.get(op.o); if (!o || o->type != T_OFF) SKIP(r);
-  int kind = (int)(((ai(op, 0) % 4) + 4) % 4); double base = ad(op, 0, 5.0);
+  int kind = (int)(((ai(op, 0) % 7) + 7) % 7); double base = ad(op, 0, 5.0);
   { auto cb = make_dcb(kind, base); Scope sc(idx); o->off->SetDeltaCallback(cb); }
   o->dcb_kind = kind; o->dcb_base = base; { ++o->n_opt; o->hist += 'o'; }
 }
@@ -718,7 +721,7 @@ static void h_f_exec(Ctx& c, const Op& op, int idx, OpResult& r) {
 }
 static void h_f_execcb(Ctx& c, const Op& op, int idx, OpResult& r) {
   Obj* o = c.get(op.o); if (!o || o->type != T_OFF) SKIP(r);
-  int kind = (int)(((ai(op, 0) % 3) + 3) % 3) + 1; double base = ad(op, 0, 5.0);
+  int kind = (int)(((ai(op, 0) % 6) + 6) % 6) + 1; double base = ad(op, 0, 5.0);
   // Execute(DeltaCallback64, Paths64&) is documented and implemented as SetDeltaCallback + Execute(1.0)
   o->dcb_kind = kind; o->dcb_base = base; { ++o->n_opt; o->hist += 'o'; }
   f_exec_common(c, op, idx, r, o, 1.0, 0, ai(op, 1) != 0, ai(op, 2) != 0, true);
@@ -854,7 +857,11 @@ static void h_utils64(Ctx&, const Op& op, int idx, OpResult& r) {
       case 8: { Rect64 rc = GetBounds(s); Rect64 r1 = GetBounds(p0); RectD rd = GetBounds<double, int64_t>(s); RectD rd1 = GetBounds<double, int64_t>(p0);
         h.i(rc.left); h.i(rc.top); h.i(rc.right); h.i(rc.bottom); h.i(r1.left); h.i(r1.bottom); h.d(rd.left); h.d(rd.bottom); h.d(rd1.right); h.d(rd1.top);
         h.d(Area(p0)); h.d(Area(s)); h.u(IsPositive(p0)); h.d(Length(p0, flag));
-        Point64 q = s.size() > 1 && !s[1].empty() ? s[1][0] : Point64(ai(op, 2), ai(op, 3)); h.u((uint64_t)PointInPolygon(q, p0)); break; }
+        Point64 q = s.size() > 1 && !s[1].empty() ? s[1][0] : Point64(ai(op, 2), ai(op, 3)); h.u((uint64_t)PointInPolygon(q, p0));
+        // points on the boundary: every vertex, every edge midpoint, and the same shifted by one unit
+        for (size_t k = 0; k < p0.size() && k < 24; ++k) { const Point64& a = p0[k]; const Point64& b = p0[(k + 1) % p0.size()]; Point64 m((a.x / 2 + b.x / 2), (a.y / 2 + b.y / 2));
+          h.u((uint64_t)PointInPolygon(a, p0)); h.u((uint64_t)PointInPolygon(m, p0)); h.u((uint64_t)PointInPolygon(Point64(m.x + 1, m.y), p0)); h.u((uint64_t)PointInPolygon(Point64(a.x, a.y - 1), p0)); }
+        break; }
       case 9: { std::ostringstream os; os.exceptions(std::ios::badbit | std::ios::failbit); os << s; os << p0; h.str(os.str()); break; }
       case 10: { Point64 ctr(ai(op, 2), ai(op, 3)); h.path(Ellipse(ctr, eps, ad(op, 1, 0), (size_t)ai(op, 4))); Rect64 rc(ai(op, 2), ai(op, 3), ai(op, 2) + (int64_t)eps, ai(op, 3) + (int64_t)ad(op, 1, 0)); h.path(Ellipse(rc, (size_t)ai(op, 4))); break; }
       default: { std::vector<int64_t> v; for (const Point64& q : p0) { v.push_back(q.x); v.push_back(q.y); } if (flag && !v.empty()) v.push_back(7); h.path(MakePath(v)); h.path(MakePathD(v)); break; }
@@ -879,7 +886,10 @@ static void h_utilsD(Ctx&, const Op& op, int idx, OpResult& r) {
       case 7: h.path(TranslatePath(p0, ad(op, 1), ad(op, 2))); h.paths(TranslatePaths(s, ad(op, 1), ad(op, 2))); break;
       case 8: { RectD rc = GetBounds(s); RectD r1 = GetBounds(p0); h.d(rc.left); h.d(rc.top); h.d(rc.right); h.d(rc.bottom); h.d(r1.left); h.d(r1.bottom);
         h.d(Area(p0)); h.d(Area(s)); h.u(IsPositive(p0)); h.d(Length(p0, flag));
-        PointD q = s.size() > 1 && !s[1].empty() ? s[1][0] : PointD(ad(op, 1), ad(op, 2)); h.u((uint64_t)PointInPolygon(q, p0)); break; }
+        PointD q = s.size() > 1 && !s[1].empty() ? s[1][0] : PointD(ad(op, 1), ad(op, 2)); h.u((uint64_t)PointInPolygon(q, p0));
+        for (size_t k = 0; k < p0.size() && k < 24; ++k) { const PointD& a = p0[k]; const PointD& b = p0[(k + 1) % p0.size()]; PointD m((a.x + b.x) / 2, (a.y + b.y) / 2);
+          h.u((uint64_t)PointInPolygon(a, p0)); h.u((uint64_t)PointInPolygon(m, p0)); }
+        break; }
       case 9: { std::ostringstream os; os.exceptions(std::ios::badbit | std::ios::failbit); os << s; os << p0; h.str(os.str()); break; }
       default: { PointD ctr(ad(op, 1), ad(op, 2)); h.path(Ellipse(ctr, eps, ad(op, 3, 0), (size_t)ai(op, 2))); break; }
     }
